@@ -192,6 +192,32 @@ Next == Step \/ Finish
 
 Spec == Init /\ [][Next]_<<obj, hist, faults>>
 
+(* ---------- scripted behaviours ----------
+   The same actions, but the kind of call and the slot of every step are fixed by a script and TLC enumerates ALL
+   choices of definitions, inputs and allocator modes (breadth-first, no sampling): interference patterns that random
+   walks meet rarely - an object parsed, another object parsed, the first one parsed again - are covered exhaustively. *)
+ScriptDefs == {1, 3, 7, 10}
+ScriptInputs == {<<>>, <<1>>, <<1, 1>>, <<1, 2>>}
+SA(o, s) == [op |-> o, s |-> s]
+ScriptTwo == <<SA("create", 1), SA("create", 2), SA("define", 1), SA("define", 2), SA("parse", 1), SA("parse", 2), SA("parse", 1),
+               SA("free", 1), SA("parse", 2)>>
+ScriptOne == <<SA("create", 1), SA("define", 1), SA("parse", 1), SA("define", 1), SA("parse", 1), SA("parse", 1)>>
+ScriptStep(script) ==
+  LET i == Len(hist) + 1 IN
+  /\ i <= Len(script)
+  /\ LET e == script[i] IN
+       \/ e.op = "create" /\ Create(e.s)
+       \/ e.op = "free" /\ Free(e.s)
+       \/ e.op = "define" /\ \E d \in ScriptDefs : Define(e.s, d, FALSE, FALSE)
+       \/ e.op = "parse" /\ \E w \in ScriptInputs : Parse(e.s, w, "ff")
+ScriptFinish(script) ==
+  /\ Len(hist) = Len(script)
+  /\ PrintT(<<"VEC", ToJson([hist |-> hist])>>)
+  /\ hist' = Append(hist, [op |-> "end", s |-> 0])
+  /\ UNCHANGED <<obj, faults>>
+SpecTwo == Init /\ [][ScriptStep(ScriptTwo) \/ ScriptFinish(ScriptTwo)]_<<obj, hist, faults>>
+SpecOne == Init /\ [][ScriptStep(ScriptOne) \/ ScriptFinish(ScriptOne)]_<<obj, hist, faults>>
+
 (* ---------- invariants of the machine ---------- *)
 TypeOK == \A s \in Slots : obj[s].life \in {"dead", "undef", "ok", "faulted"} /\ obj[s].la \in 0..2
 DefinedIffOk == \A s \in Slots : (obj[s].life = "ok") <=> (obj[s].def # 0)
